@@ -307,7 +307,7 @@ fn main() {
     let ix = Index::new(&model, true);
     h.assume("N is large enough for every message and for all answers of any one message (mostly the tightest instantiated size); payload newlines occur in a third of the streams; faulty units are last in their message");
     h.assume("finite streams end with an end-of-stream error from the transport, so 'never returns Ok' is decided for finite generated streams only");
-    let cases = h.tier.pick(12_000, 2_000_000);
+    let cases = h.tier.pick(30_000, 2_000_000);
     h.check(
         "c10.answers_and_faults",
         "proptest tapes -> streams of 1-8 messages (queries, commands, trailing faulty units) over the fx fixture under random read schedules (several messages per read, single bytes, empty reads) and Pending scripts: in the fault-free run, at every read call the bytes written so far must equal the predicted responses of exactly the messages completely delivered by earlier reads, flushed, result = the transport's end-of-stream error; then the run is repeated with a transport error injected at EVERY position of the read/write/flush call sequence: same calls before it, the error returned unchanged, no call after it; non-trivial = error injected on a write, a flush, or the read following an answer",
